@@ -6,11 +6,11 @@ import (
 	"fmt"
 	"math/big"
 
+	. "gethverif/harness/hxlib"
 	"github.com/ethereum/go-ethereum/common"
 	"github.com/ethereum/go-ethereum/core/vm"
 	"github.com/ethereum/go-ethereum/crypto"
 	"github.com/holiman/uint256"
-	. "gethverif/harness/hxlib"
 )
 
 func cp(b []byte) []byte { return append([]byte{}, b...) }
@@ -355,6 +355,8 @@ func run(c Sx) Result {
 		if after == nil {
 			res.Tags = append(res.Tags, "internal-panic")
 		}
+	case 4:
+		return runEVM(l)
 	default:
 		panic("hxlib: unknown case kind")
 	}
@@ -555,13 +557,15 @@ func gen(r *Rng, tier string, emit func(Sx)) {
 			emit(L(I(3), B(code), B(bits)))
 		}
 	}
+	// 4. EVM-level histories: real calls sharing one jumpdest cache, code changing between calls
+	genEVM(r, tier, emit)
 }
 
 func main() {
 	Main(Family{
-		ID: "C30",
-		Rule: "kind 0: every bytecode of length <= 3 (quick) / <= 4 (thorough) over {PUSH1,PUSH8,PUSH9,PUSH16,PUSH17,PUSH32,JUMPDEST,STOP}; an alignment sweep (0..16 JUMPDEST filler bytes, then PUSHn for every n=1..32, then JUMPDEST data, one third truncated); random dense-PUSH code up to 300 bytes cut at a random point (truncated trailing pushes) and arbitrary bytes; observed: raw bitmap, codeSegment at every bit position of the vector (+8 out of range), validJumpdest at every position of one synthetic Contract plus out-of-range and >= 2^64 destinations; the oracle additionally runs the Keccak-hashed cached path (miss, then hit) against the fresh one. kind 1: 2-5 contracts sharing one jumpdest cache, honest Keccak hashes with repeated codes, or (adversarial) different codes under one hash. kind 2: one BitVec setter on a given vector (junk only below pos, or junk everywhere; arbitrary 16-bit flags). kind 3: codeBitmapInternal on a given vector (right size / too short -> panic / junk). Non-trivial: kind 0 with at least one PUSH opcode and a JUMPDEST inside push data or a valid JUMPDEST; kind 1 with a cache hit; kind 2 when the clear-above-pos precondition holds and the vector has room; kind 3 on a large-enough zero vector with more than 2 code bytes. distinct = distinct case line.",
-		Gen: gen,
-		Run: run,
+		ID:   "C30",
+		Rule: "kind 0: every bytecode of length <= 3 (quick) / <= 4 (thorough) over {PUSH1,PUSH8,PUSH9,PUSH16,PUSH17,PUSH32,JUMPDEST,STOP}; an alignment sweep (0..16 JUMPDEST filler bytes, then PUSHn for every n=1..32, then JUMPDEST data, one third truncated); random dense-PUSH code up to 300 bytes cut at a random point (truncated trailing pushes) and arbitrary bytes; observed: raw bitmap, codeSegment at every bit position of the vector (+8 out of range), validJumpdest at every position of one synthetic Contract plus out-of-range and >= 2^64 destinations; the oracle additionally runs the Keccak-hashed cached path (miss, then hit) against the fresh one. kind 1: 2-5 contracts sharing one jumpdest cache, honest Keccak hashes with repeated codes, or (adversarial) different codes under one hash. kind 2: one BitVec setter on a given vector (junk only below pos, or junk everywhere; arbitrary 16-bit flags). kind 3: codeBitmapInternal on a given vector (right size / too short -> panic / junk). Non-trivial: kind 0 with at least one PUSH opcode and a JUMPDEST inside push data or a valid JUMPDEST; kind 1 with a cache hit; kind 2 when the clear-above-pos precondition holds and the vector has room; kind 3 on a large-enough zero vector with more than 2 code bytes. kind 4 (EVM level): histories of StateDB.SetCode at plain and EIP-7702 delegating addresses, Call/CallCode/DelegateCall/StaticCall and Create/Create2 through vm.EVM (Prague+ rules, 1/6 pre-Prague), one brand-new EVM per call but ONE jumpdest cache (vm map or core.NewJumpDestCache) shared by the whole history; contracts are generated jump programs (PUSH target; JUMP/JUMPI) whose targets are valid JUMPDESTs, 0x5b bytes inside PUSH data, junk or >= 2^64, and mutants of the installed program (a PUSH width changed / a JUMPDEST flipped) re-installed at the same address, half of the histories following the template 'D delegates to P; call D; P's code changes; call D'; observed: per call the outcome class (ok / ErrInvalidJump / panic / underflow / other) and the CodeHash of the executing frame; oracles: outcome = definition-based interpreter on the code that must execute, every frame's CodeHash is zero or Keccak(frame code), every cache entry stored or handed out equals the fresh analysis of the code its key is the hash of. Non-trivial kind 4: a call whose executed code differs from that of an earlier call to the same address and which evaluates a jump. distinct = distinct case line.",
+		Gen:  gen,
+		Run:  run,
 	})
 }
